@@ -134,6 +134,22 @@ Theorem C07_wcwidth_is_membership : forall cp, bad_cp cp = false ->
 Proof. exact (fun cp H => conj (wcwidth_spec cp H) (spec_width_range cp)). Qed.
 Print Assumptions C07_wcwidth_is_membership.
 
+(* The widths the library documents (man page, test suite, header comment; list in Utf8Spec)
+   hold of the tables as translated from the sources on this run. *)
+Theorem C07_documented_widths :
+  forallb (fun e => spec_width (fst e) =? snd e) documented_widths = true /\
+  forallb (fun k => spec_width (0x1160 + Z.of_nat k) =? 0) (seq 0 160) = true.
+Proof. exact (conj documented_widths_hold jamo_medial_final_zero_width). Qed.
+Print Assumptions C07_documented_widths.
+
+(* For the record (not demanded by the property as read in DESIGN section 6/C07): the decoder
+   does not test that continuation bytes are 10xxxxxx, so a C0 control BYTE in continuation
+   position is consumed as payload -- C3 0A counts as one code point U+00CA. *)
+Theorem C07_note_control_in_continuation :
+  u8_count [0xc3; 0x0a; 0] None = CRet 2 (mkPos 2 1 1 1).
+Proof. exact note_control_in_continuation. Qed.
+Print Assumptions C07_note_control_in_continuation.
+
 Example C07_nonvacuous :
   let s := [0x65; 0xcc; 0x81; 0xef; 0xbc; 0xa1] in
   nonul s /\ tail_ok s [0] (len_sub None 0) /\
